@@ -75,6 +75,22 @@ def run(tier):
         for k in ((40, 60, 69, 70, 71, 85) if q else list(range(20, 100, 4)) + [69, 70, 71]):
             t = b'[' + b'18446744073709551615,' * p + b'"' + b'\\u0001' * k + b'",7]'
             tight.append(dict(t=list(t), ok=True, tight=True))
+    # the longest renderings of every numeric kind (fixed notation runs down to 1e-6: sign + "0." + five zeros + 17
+    # digits = 25 bytes; 24 for the largest exponent form; 20 for the 64-bit integer limits) behind fillers of every length,
+    # so that with the sweep over every starting capacity each of them meets every amount of free space
+    longnums = [b'-0.0000012345678901234567', b'-0.0000098765432109876543', b'-1.7976931348623157e+308', b'-2.2250738585072014e-308',
+                b'18446744073709551615', b'-9223372036854775808', b'123456789012345680000', b'-1.2345678901234567e-7']
+    for num in longnums:
+        # (fillers long enough that the write position passes the serializer's initial estimate of 18 bytes per node + 64)
+        for m in (list(range(0, 9)) + [15, 16, 33] + list(range(72, 92)) if q else range(0, 130)):
+            for tail in (b'', b',1'):
+                tight.append(dict(t=list(b'["' + b'a' * m + b'",' + num + tail + b']'), ok=True, tight=True))
+    # the same behind k maximal integers (21 bytes per element against the serializer's estimate of 18 per node: from k = 19
+    # on the running output has overtaken the estimate, so the swept starting capacities put every amount of free space in
+    # front of the last number without an earlier growth)
+    for num in longnums[:3] + longnums[4:6]:
+        for k in (range(17, 33) if q else range(0, 48)):
+            tight.append(dict(t=list(b'[' + b'18446744073709551615,' * k + num + b']'), ok=True, tight=True))
     recs += tight
     seen = set()
     for r in recs:
